@@ -119,7 +119,9 @@ func (p *PostingsList) OrInto(receiver *roaring.Bitmap) {
 // Iterator returns an iterator for this postings list
 func (p *PostingsList) Iterator(includeFreq, includeNorm, includeLocs bool,
 	prealloc segment.PostingsIterator) (segment.PostingsIterator, error) {
-	if p.normBits1Hit == 0 && p.postings == nil {
+	if p.normBits1Hit == 0 && (p.postings == nil || p.postings.IsEmpty()) {
+		// also a reused list that was re-initialised for an unknown field or term:
+		// it keeps its (cleared) bitmap but may have no segment behind it
 		return emptyPostingsIterator, nil
 	}
 
